@@ -41,3 +41,6 @@ int deepfp_nofmt (int n) { function f = (: spin :); int i; for (i = 0; i < n; i+
 function gfp;
 int deepfp_keep (int n) { function f = (: spin :); int i; for (i = 0; i < n; i++) f = (: call_other, this_object (), "kind", f :); gfp = f; return n; }
 int fmt_kept () { return strlen (sprintf ("%O", gfp)); }
+// round 5 probes: time of one efun call
+int rx (int n, string pat) { string s = repeat_string ("a", n); int t = time_expression { regexp (({ s }), pat); }; return t; }
+int rx2 (int n, string pat) { string s = repeat_string ("a", n) + "cb"; int t = time_expression { regexp (({ s }), pat); }; return t; }
